@@ -80,7 +80,25 @@ func (p *PanicInfo) String() string {
 	if p == nil {
 		return ""
 	}
-	return fmt.Sprintf("panic %q at %s", p.Val, p.Site)
+	return fmt.Sprintf("panic %q at %s [%s]", p.Val, p.Site, repoFrames(p.Stack, 6))
+}
+
+// repoFrames lists the innermost n repository functions of a stack trace.
+func repoFrames(stack string, n int) string {
+	m := reFrame.FindAllStringSubmatch(stack, -1)
+	var out []string
+	for _, x := range m {
+		f := strings.TrimPrefix(x[1], "github.com/ryogrid/SamehadaDB/lib/")
+		f = strings.TrimPrefix(f, "github.com/ryogrid/")
+		if len(out) > 0 && out[len(out)-1] == f {
+			continue
+		}
+		out = append(out, f)
+		if len(out) >= n {
+			break
+		}
+	}
+	return strings.Join(out, " < ")
 }
 
 var reFrame = regexp.MustCompile(`(?m)^(github\.com/ryogrid/[^\s(]+(?:\([^)]*\))?[^\s(]*)\(`)
@@ -405,11 +423,24 @@ func pinDiff(a, b map[int32]int32) string {
 	sort.Slice(ks, func(i, j int) bool { return ks[i] < ks[j] })
 	var out []string
 	for _, k := range ks {
-		if a[k] != b[k] {
-			out = append(out, fmt.Sprintf("page %d: %d->%d", k, a[k], b[k]))
+		// the property speaks about frames that become pinned: a page that was pinned before (index
+		// header / start node pages are pinned for good by design) and still is does not count
+		if a[k] == 0 && b[k] != 0 {
+			out = append(out, fmt.Sprintf("page %d: pin count %d->%d", k, a[k], b[k]))
 		}
 	}
 	return strings.Join(out, ", ")
+}
+
+// pinGrowth counts pages that were pinned before and whose pin count grew (reported as a counter only).
+func pinGrowth(a, b map[int32]int32) int {
+	n := 0
+	for k, v := range b {
+		if a[k] > 0 && v > a[k] {
+			n++
+		}
+	}
+	return n
 }
 
 func removeDBFiles(path string) {
